@@ -143,4 +143,12 @@ theorem handler_exits :
     ∧ before skel_datachannelHandler (pre "call websocket.DefaultDialer.Dial(") (pre "call copyLoop(") = true := by
   decide +kernel
 
+/-- The timeout arm of `runSession`'s `select` closes the peer connection, releases and falls out of the
+function: it contains no receive, send, nested `select`, loop or conditional — nothing it could wait on
+(the model's `lTimeout` label is a single step that always completes). -/
+theorem timeout_arm_does_not_wait :
+    after skel_runSession (· == "recv time.After(dataChannelTimeout)")
+      = ["call time.After(dataChannelTimeout)", "do:", "call pc.Close()", "call release()", "}"] := by
+  decide +kernel
+
 end Snowflake.Tie.ProxyLib
